@@ -13,10 +13,17 @@
     The guard rcu holds on the value it read ([WRcuCas], [RAlloc], [RInc], ...) keeps that value alive
     and identical across every step of any thread ([C06_guard_keeps_identity], all schedules within
     [Main.RunOK]): the closure's input cannot be replaced by another object at the same address.
+
+    RUN LEVEL ([ASModel.LinCasRcu], all schedules within [Main.RunOK]): [C06_rcu_linearizable] - a completed
+    rcu (non-panicking closure) returns the previous value q, EXACTLY ONE step of the call wrote the
+    container, that write replaced exactly q by what the closure made from q in that attempt (a fresh
+    allocation / null / q itself, by mode), and failed attempts wrote nothing: rcu is one atomic
+    read-modify-write on the value it returns.
 *)
 From ASModel Require Import Base State Orderings_gen Step Run Progress Hist Inv InvTl InvProto InvStep Sum StepCases.
 From ASModel Require Import GenDefs Gen1 Gen2 Gen EnvDefs Env4 Env AccDefs Acc1 Acc2 Acc3 Acc4 Acc5 Acc6 Acc7 Acc.
 From ASModel Require Import ProtDefs Prot1 Prot11 Prot16 Prot Typed LinDefs Lin2 Lin Safe1 Safe2 Safe7 Safe8 Safe Main Alive.
+From ASModel Require Import LinCache LinCas1 LinCas2 LinCas3 LinCas4 LinCas5 LinCas6 LinCas LinCasR1 LinCasR4 LinCasRcu LinCasMain.
 
 Theorem C06_first_attempt_on_loaded_value :
   forall cf l c m p d, rcu_attempt_shape c p (snd (resume cf l (WRcuLoad c m) (RGuard p d))).
@@ -51,7 +58,24 @@ Theorem C06_guard_keeps_identity : forall cf s t t' x p v d,
   heap (sh (fst (step cf s t' x))) v = heap (sh s) v /\ heap (sh s) v <> None.
 Proof. exact frame_guard_identity. Qed.
 
+Theorem C06_rcu_linearizable : forall cf inits progs sched t i c m h2 pa pb xa tb xb,
+  let s0 := init_state inits progs in
+  let St := fun k => run_state cf s0 (firstn k sched) in
+  RunOK cf inits progs sched ->
+  (forall p, In p progs -> forall g, ~ In (CSetGen g) p) ->
+  nth_error (t_prog (thr s0 t)) (N.to_nat i) = Some (CRcu c m h2) -> nonpanic m = true ->
+  (pa <= pb)%nat ->
+  nth_error sched pa = Some (t, xa) ->
+  t_status (thr (St pa) t) = Running -> t_stack (thr (St pa) t) = [] -> t_cmdi (thr (St pa) t) = i ->
+  nth_error sched pb = Some (tb, xb) ->
+  t_cmdi (thr (St pb) t) = i -> t_cmdi (thr (St (S pb)) t) = i + 1 ->
+  exists q nw j, hnd (St (S pb)) h2 = HOwned q /\
+    one_write cf s0 sched t c q nw pa pb j /\
+    rcu_new (made_to cf inits progs sched t pa (S pb)) m q nw.
+Proof. exact rcu_linearizable_runok. Qed.
+
 Print Assumptions C06_first_attempt_on_loaded_value.
 Print Assumptions C06_new_value_exchanged_against_p.
 Print Assumptions C06_retry_or_return.
 Print Assumptions C06_guard_keeps_identity.
+Print Assumptions C06_rcu_linearizable.
